@@ -21,6 +21,7 @@ const IgnoreFile = ".gitignore"
 
 const (
 	commentPrefix   = "#"
+	utf8BOM         = "\xef\xbb\xbf"
 	coreSection     = "core"
 	excludesfile    = "excludesfile"
 	gitDir          = ".git"
@@ -39,8 +40,16 @@ func readIgnoreFile(fs billy.Filesystem, path []string, ignoreFile string) (ps [
 		defer func() { _ = f.Close() }()
 
 		scanner := bufio.NewScanner(f)
+		first := true
 		for scanner.Scan() {
 			s := scanner.Text()
+			if first {
+				// git skips a UTF-8 byte order mark at the start of an
+				// ignore file (skip_utf8_bom in dir.c); otherwise the BOM
+				// becomes part of the first pattern.
+				s = strings.TrimPrefix(s, utf8BOM)
+				first = false
+			}
 			if !strings.HasPrefix(s, commentPrefix) && len(strings.TrimSpace(s)) > 0 {
 				ps = append(ps, ParsePattern(s, path))
 			}
